@@ -202,6 +202,37 @@ var c08Scenarios = []c08Scenario{
 		}
 		return th, nil
 	}},
+	{name: "g:lookups-while-the-registry-grows", build: func(c *explore.C, n int) ([][]histOp, []reflect.Type) {
+		// W static types are registered before the run (sequentially), then one thread uses a new type for the
+		// first time while the others keep using an old one: a registry that grows or rehashes at some size
+		// must keep serving lock-free lookups meanwhile.  W ranges over typical thresholds (2^k - 1).
+		ws := []int{15, 31}
+		if c08Tier == universe.Thorough {
+			ws = []int{0, 1, 3, 7, 15, 16, 31, 32, 63, 64}
+		}
+		w := ws[c.Choose(len(ws), explore.Data, "types-registered-before")]
+		var valid []reflect.Type
+		for i := range universe.GraphPairs {
+			q := &universe.GraphPairs[i]
+			if !q.BadA && !q.BadB && !q.AB && !q.BA {
+				valid = append(valid, q.A, q.B)
+			}
+		}
+		old := valid[0]
+		buf := make([]byte, 64)
+		Enc(buf, reflect.New(old).Interface())
+		for i := 1; i <= w && i < len(valid); i++ {
+			Enc(buf, reflect.New(valid[i]).Interface())
+		}
+		s := c08Main()
+		ops := entryOps("T", s, 3)
+		th := [][]histOp{{ops[c.Choose(len(ops), explore.Data, "entry-point")]}}
+		for t := 1; t < n; t++ {
+			o := staticOps(old.Name(), old)
+			th = append(th, []histOp{o[0], o[1]})
+		}
+		return th, []reflect.Type{universe.StructGoType(s)}
+	}},
 	{name: "e:by-value-calls-shared-scratch", freshOK: true, build: func(c *explore.C, n int) ([][]histOp, []reflect.Type) {
 		s := c08Main()
 		if c.Bool(explore.Data, "registered-before") {
@@ -229,7 +260,7 @@ func init() {
 				bound, raceBound = 3, 2
 			}
 			ps := []*harness.Phase{
-				{Name: "interleavings", Bound: bound, Gate: true, FineCrumbs: true, Weight: 2, Rule: "6 scenarios x entry-point choices x all schedules with <=2 (thorough 3) preemptions (pool answer deviations share the bound); distinct by (scenario, schedule)", Body: func(c *explore.C) { c08Body(c, tier, false) }},
+				{Name: "interleavings", Bound: bound, Gate: true, FineCrumbs: true, Weight: 2, Rule: "7 scenarios x entry-point choices x all schedules with <=2 (thorough 3) preemptions (pool answer deviations share the bound); distinct by (scenario, schedule)", Body: func(c *explore.C) { c08Body(c, tier, false) }},
 				{Name: "interleavings-race", Bound: raceBound, Race: true, Gate: true, FineCrumbs: true, Weight: 2, Rule: "the same scenarios with <=1 (thorough 2) preemptions in a -race build whose scheduler hand-offs create no happens-before edge; any data race aborts the worker and is pinned to the schedule", Body: func(c *explore.C) { c08Body(c, tier, true) }},
 			}
 			return append(ps, e3Phases("C08")...)
@@ -237,7 +268,10 @@ func init() {
 	})
 }
 
+var c08Tier universe.Tier
+
 func c08Body(c *explore.C, tier universe.Tier, race bool) {
+	c08Tier = tier
 	nthreads := 2
 	if tier == universe.Thorough {
 		nthreads = 2 + c.Choose(2, explore.Data, "threads")
